@@ -174,7 +174,7 @@ def evaluate(case, out):
     n = len(x)
     out.cls(cfg["family"])
     test = nonneg.make_test(cfg)
-    xa = np.array(x, dtype=float)
+    xa = nonneg.natural(x)   # whole-number samples are integer-typed arrays, as 0/1 assorter values are
     try:
         keep = xa.copy()
         p, hist = test.test(xa)
@@ -187,8 +187,24 @@ def evaluate(case, out):
         seq = None
         if cfg["test"] == "alpha_mart":
             seq = as_list(test.estim(xa), n)
+            if cfg["estim"] == "fixed_alternative_mean":
+                # the fixed alternative has a closed form: (N eta - S_j)/(N-j+1) kept inside [0,u]; eta itself for IID draws
+                eta0 = cfg["kw"]["eta"]
+                if N is None:
+                    own = [eta0] * n
+                else:
+                    own, S = [], 0.0
+                    for j, v in enumerate(x):
+                        own.append(min(max((N * eta0 - S) / (N - j), 0.0), u))
+                        S += v
+                out.expect(all(close(a, b) or abs(a - b) <= 1e-12 for a, b in zip(seq, own)), "fixed-alternative!=its-definition", lambda: (seq[:5], own[:5]))
+                seq = own
         elif cfg["test"] == "betting_mart":
             seq = as_list(test.bet(xa), n)
+            if cfg["bet"] == "fixed_bet":
+                own = [cfg["kw"]["lam"]] * n   # a fixed bet is the configured fraction, whatever the sample looks like
+                out.expect(all(a == b for a, b in zip(seq, own)), "fixed-bet!=configured-fraction", lambda: (seq[:5], own[:5]))
+                seq = own
         elif cfg["test"] == "wald_sprt":
             eta = cfg["kw"]["eta"]
             if N is None:
